@@ -18,6 +18,12 @@ def skewFuture : Int := skewFutureSec
 def skewPast : Int := skewPastSec
 def blacklistSec : Int := blacklistDurationSec
 def cacheCap : Nat := defaultMaxSize
+def discoveryMaxRetries : Nat := Generated.discoveryMaxRetries
+def discoveryBaseDelaySec : Int := Generated.discoveryBaseDelaySec
+def discoveryMaxDelaySec : Int := Generated.discoveryMaxDelaySec
+def metadataRetryIntervalSec : Int := Generated.metadataRetryIntervalSec
+def initializeMetadataLoops : Bool := Generated.initializeMetadataLoops
+def initWaitSec : Int := Generated.initWaitSec
 /-- cookie contents are encrypted iff a block key is passed to the cookie store -/
 def cookiesEncrypted : Bool := decide (2 ≤ cookieStoreKeyArgs)
 def mainCookieName : String := Generated.mainCookieName
